@@ -339,3 +339,6 @@ def _check_visit_constant(ctx, m):
                     ok = True
     ctx.check("routing", "Writer.visit_constant routes str through string()", ok, f, "visit_constant",
               "string constants are no longer written through string() in Writer.visit_constant")
+
+
+MUTATION_TARGETS = [(WRITER, "string"), (WRITER, "Writer.visit_constant")]
